@@ -87,7 +87,7 @@ reg("C18", [
     K("C18", "match_qtype", "all (supported record code, question code in supported|ANY|MAILB) pairs (symbolic)",
       ["ResourceRecord::match_qtype", "RData::type_code"]),
     K("C18", "match_qclass", "all (class, qclass) pairs (symbolic codes)", ["ResourceRecord::match_qclass"]),
-    K("C18", "typecode_null_constructed", "all 65536 codes (symbolic) for RData::NULL(code, ..) / RData::Empty(TYPE::from(code))",
+    K("C18", "typecode_null_constructed", "all 65536 codes (symbolic) for RData::NULL(code, ..), its into_owned() copy and RData::Empty(TYPE::from(code))",
       ["RData::type_code"]),
     K("C18", "typecode_parsed", "RData::parse with empty RDATA for all 65535 codes != OPT (symbolic): type_code() == the type the code denotes",
       ["RData::parse", "RData::type_code"], weight=20, timeout_quick=700, timeout_thorough=1500),
@@ -435,6 +435,11 @@ reg("C15", [
     "socket transport between the two sides is replaced by bytes out = bytes in",
 ])
 
+reg("C02", [
+    M("C02", "txt_from_text", "txt_text", "records whose TXT value is built from text (TXT::try_from(&str), strings of 0,1,3,253..256 (+508..510) symbolic bytes): "
+      "len() == bytes written == text + one length octet per piece, and the written RDATA parses back to the same number of strings",
+      ["<TXT as TryFrom<&str>>::try_from", "<TXT as WireFormat>::{write_to,len,parse}"], params={'part_only': 'chunk'}),
+], [])
 reg("C02", [
     M("C02", "question", "question_rt", "questions: 47 QTYPE values (41 types, NULL, IXFR, AXFR, MAILB, MAILA, ANY) x 6 QCLASS values x unicast bit x "
       "3 name shapes with symbolic label bytes: write_to == RFC 1035 4.1.2 layout, parse(reference bytes) == question",
